@@ -4,6 +4,7 @@ cd /verif
 names="$@"; [ -z "$names" ] && names=$(ls seeded)
 for name in $names; do
   out=/verif/seeded/$name
+  if grep -q obsolete_since $out/meta.json 2>/dev/null; then echo "$name: obsolete (code it patches was replaced by a fix)"; continue; fi
   git -C /repo apply $out/patch.diff || { echo "$name: patch does not apply"; continue; }
   fired=""
   for c in $(python3-vt -c "import json;print(' '.join(x['property_id'] for x in json.load(open('/verif/MANIFEST.json'))['checks']))"); do
